@@ -17,26 +17,30 @@ Trace == ndJsonDeserialize(IOEnv.VERIF_TRACE)
 VARIABLES l, cur, ndev
 traceVars == <<l, cur, ndev, used, cfg, ncalls>>
 
-TraceInit == ApiInit /\ l = 1 /\ cur = [vals |-> <<>>] /\ ndev = 0
+TraceInit == TLCSet(1, <<>>) /\ ApiInit /\ l = 1 /\ cur = [vals |-> <<>>, prop |-> ""] /\ ndev = 0
 
 Line == Trace[l]
 IsEvent(e) == l <= Len(Trace) /\ Line.ev = e
 
-\* clauses violated by the current line (never looks at used / cfg / ncalls)
-Verdict ==
+\* the value argument of a Size / Encode line: inline (a previously decoded object) or by index
+ValOf == IF "val" \in DOMAIN Line THEN Line.val ELSE cur.vals[Line.v + 1]
+
+\* judgement of the current line: violated clauses and the class of the case (for coverage
+\* statistics); never looks at used / cfg / ncalls
+Judge ==
   CASE Line.ev = "Size" ->
-         (IF Line.obs.out = "crash" THEN {"size_ok"}
-          ELSE FailSize(Line.ty, cur.vals[Line.v + 1], Line.obs))
+         (IF Line.obs.out = "crash" THEN [fail |-> {"size_ok"}, cls |-> "Size>crash"]
+          ELSE JSize(Line.ty, ValOf, Line.obs))
     [] Line.ev = "Encode" ->
-         (IF Line.obs.out \in {"crash", "panic"} THEN {"enc_ok"}
-          ELSE FailEncode(Line.ty, cur.vals[Line.v + 1], Line.buflen, Line.obs))
+         (IF Line.obs.out \in {"crash", "panic"} THEN [fail |-> {"enc_ok"}, cls |-> "Encode/?>" \o Line.obs.out]
+          ELSE JEncode(Line.ty, ValOf, Line.buflen, Line.obs))
     [] Line.ev = "Decode" ->
-         (IF Line.obs.out \in {"crash", "timeout"} THEN {"dec_nocrash"}
-          ELSE FailDecode(Line.ty, Line.in, Line.dest, Line.obs) \cup
-               (IF Line.orig >= 0
-                THEN FailRoundTrip(Line.ty, cur.vals[Line.orig + 1], Line.in, Line.obs)
-                ELSE {}))
-    [] OTHER -> {}
+         (IF Line.obs.out \in {"crash", "timeout"} THEN [fail |-> {"dec_nocrash"}, cls |-> "Decode/?>" \o Line.obs.out]
+          ELSE LET j == JDecode(Line.ty, Line.in, Line.dest, Line.obs) IN
+               [j EXCEPT !.fail = @ \cup (IF Line.orig >= 0
+                                           THEN FailRoundTrip(Line.ty, cur.vals[Line.orig + 1], Line.in, Line.obs)
+                                           ELSE {})])
+    [] OTHER -> [fail |-> {}, cls |-> "other"]
 
 \* where the observed value departs from the expected one (diagnostic text only)
 Why(v) ==
@@ -47,20 +51,34 @@ Why(v) ==
   THEN <<"dec">> \o DiffStruct(Line.ty, Line.obs.val, Dec(Line.ty, Line.in, Line.dest).v)
   ELSE <<>>
 
+\* A scenario is an instance of the quantifier of the property it was generated for, so a
+\* wrong result of one of its calls also counts against that property.
+ScenarioProps(v) ==
+  IF v \cap {"dec_val", "dec_n", "dec_accept", "enc_bytes", "enc_ok", "size_exact", "size_ok", "enc_n"} # {} /\
+     cur.prop \in {"C09", "C10", "C11", "C12", "C14"}
+  THEN {cur.prop} ELSE {}
+
 Report(v) == PrintT(ToJson([tag |-> "REJECT", l |-> l, sid |-> Line.sid, step |-> Line.step, ev |-> Line.ev,
-                            clauses |-> v, props |-> PropsOf(v), why |-> Why(v)]))
+                            clauses |-> v, props |-> PropsOf(v) \cup ScenarioProps(v), why |-> Why(v)]))
+
+\* coverage statistics: class -> number of lines, kept in TLC register 1 (single worker)
+Count(c) ==
+  LET st == TLCGet(1) IN
+  TLCSet(1, IF c \in DOMAIN st THEN [st EXCEPT ![c] = @ + 1] ELSE st @@ (c :> 1))
 
 TraceScenario ==
   /\ IsEvent("Scenario")
-  /\ cur' = [vals |-> Line.vals]
+  /\ cur' = [vals |-> Line.vals, prop |-> Line.prop]
   /\ l' = l + 1
   /\ UNCHANGED <<ndev, used, cfg, ncalls>>
 
 \* a call whose observed outcome the specification allows
 TraceCall ==
   /\ l <= Len(Trace) /\ Line.ev \in {"Size", "Encode", "Decode"}
-  /\ LET v == Verdict IN
+  /\ LET j == Judge
+         v == j.fail IN
      /\ IF v = {} THEN ndev' = ndev ELSE Report(v) /\ ndev' = ndev + 1
+     /\ Count(j.cls)
      /\ Call(Line.ty)
   /\ l' = l + 1
   /\ UNCHANGED cur
@@ -78,6 +96,7 @@ TraceSpec == TraceInit /\ [][TraceNext]_traceVars
 \* every line was consumed
 TraceConsumed == TLCGet("stats").diameter - 1 = Len(Trace)
 \* printed at the end so that the orchestrator can cross-check its own count
-Summary == PrintT(ToJson([tag |-> "SUMMARY", lines |-> Len(Trace), consumed |-> TLCGet("stats").diameter - 1]))
+Summary == PrintT(ToJson([tag |-> "SUMMARY", lines |-> Len(Trace), consumed |-> TLCGet("stats").diameter - 1,
+                                classes |-> TLCGet(1)]))
 TraceAccepted == Summary /\ TraceConsumed
 =============================================================================
